@@ -3,6 +3,8 @@
 Generator: op-list programs over 1..3 session channels of one in-memory
 client/server connection.  Oracle: per (channel, direction, datatype) the
 receiver's concatenation equals the sender's, EOF iff signalled and last.
+Family `streams`: the receiver is the stream-API loop `while data := await
+reader.read(n)` with n around the record size, keeping pace with the sender.
 """
 
 import codecs
@@ -392,10 +394,162 @@ def strategy(tier: str):
     return build()
 
 
+# -------------------------------------------------------------- streams ---
+
+def run_streams(case) -> CaseResult:
+    """Receiving application = the canonical stream loop
+    `while data := await reader.read(n)` (an empty result IS the end-of-file
+    indication of the stream API).  The sender writes records one at a time
+    or in bursts; the reader keeps pace or lags.  Oracle: the loop ends only
+    after the sender signalled EOF and has then seen exactly what was
+    written, per stream."""
+
+    import asyncio
+    enc = case['enc']
+    win, pkt = case['win'], case['pkt']
+    chunks = case['chunks']
+    chunker = itertools.cycle(chunks) if chunks else None
+    labels = {'enc:%s' % enc}
+    holder: Dict[str, Any] = {}
+    got: Dict[str, List[Any]] = {'o': [], 'e': []}
+    ended: Dict[str, bool] = {}
+    direction = case['dir']          # 'down': server writes, client reads
+
+    async def read_loop(reader, key, n):
+        while True:
+            data = await reader.read(n)
+            if not data:
+                break
+            got[key].append(data)
+        ended[key] = True
+
+    async def body(stdin, stdout, stderr):
+        holder.update(stdin=stdin, stdout=stdout, stderr=stderr)
+        if direction == 'up':
+            await read_loop(stdin, 'o', case['n'])
+            stdout.channel.exit(0)
+        else:
+            holder['done'] = asyncio.Event()
+            await holder['done'].wait()
+            stdout.channel.exit(0)
+
+    sopts: Dict[str, Any] = {'session_factory': body, 'encoding': enc}
+    if direction == 'up':
+        sopts.update(window=win, max_pktsize=pkt)
+    pair = Pair(sopts)
+    h = pair.h
+
+    try:
+        pair.handshake(chunker)
+        kw: Dict[str, Any] = {'encoding': enc}
+        if direction == 'down':
+            kw.update(window=win, max_pktsize=pkt)
+        t = h.spawn(pair.c.open_session('cmd', **kw))
+        h.pump_until(t.done, chunker)
+        cin, cout, cerr = t.result()
+        h.pump(chunker)
+        tasks = []
+
+        if direction == 'down':
+            writers = {'o': holder['stdout'], 'e': holder['stderr']}
+            tasks.append(h.spawn(read_loop(cout, 'o', case['n'])))
+            tasks.append(h.spawn(read_loop(cerr, 'e', case['n'])))
+        else:
+            writers = {'o': cin}
+
+        sent: Dict[str, List[Any]] = {'o': [], 'e': []}
+        k = 0
+
+        for op in case['ops']:
+            if op[0] == 'w':
+                key = op[1] if op[1] in writers else 'o'
+                unit = make_unit(enc, 0, key, k, op[2])
+                k += 1
+                sent[key].append(unit)
+                h.call(writers[key].write, unit)
+                if op[2] == case['n']:
+                    labels.add('record==n')
+            if op[0] == 'pump' or (op[0] == 'w' and case['lockstep']):
+                h.pump(chunker)
+                # nothing signalled EOF yet: no reader may have stopped
+                for key, flag in ended.items():
+                    if flag:
+                        raise Violation(
+                            'eof-not-signalled', 'the %s reader got an empty '
+                            'read(%d) - end of file - after %d of %d units '
+                            'although the sender has not sent EOF' %
+                            (key, case['n'], len(got[key]), len(sent[key])),
+                            'streams:spurious-eof')
+
+        if case['lockstep']:
+            labels.add('lockstep')
+
+        # end of stream
+        if direction == 'down':
+            h.call(holder['stdout'].channel.write_eof)
+        else:
+            h.call(cin.write_eof)
+
+        h.pump(chunker)
+
+        if direction == 'down':
+            h.call(holder['done'].set)
+            h.pump(chunker)
+
+        join = (lambda parts: b''.join(parts)) if enc is None else ''.join
+
+        for key in writers:
+            if not ended.get(key):
+                raise Violation('eof-missing', 'EOF was signalled, the %s '
+                                'reader is still waiting' % key,
+                                'streams:eof-missing')
+            if join(got[key]) != join(sent[key]):
+                raise Violation('data-mismatch', 'stream %s: sent %d units, '
+                                'received %d' % (key, len(join(sent[key])),
+                                                 len(join(got[key]))),
+                                'streams:data:' + key)
+
+        if h.loop_errors:
+            raise Violation('loop-error', repr(h.loop_errors[0])[:300],
+                            'loop-error')
+
+        labels.add('dir:' + direction)
+        return CaseResult(sorted(labels), 'record==n' in labels or
+                          bool(chunks))
+    finally:
+        pair.close()
+
+
+def streams_strategy(tier: str):
+    @st.composite
+    def build(draw):
+        n = draw(pick([1, 2, 5, 16, 64, 1000]))
+        size = pick([n, n, n, max(n - 1, 1), n + 1, 2 * n, 1, 3 * n + 1])
+        op = st.one_of(
+            st.tuples(st.just('w'), pick(['o', 'o', 'e']), size).map(list),
+            st.tuples(st.just('w'), pick(['o', 'o', 'e']), size).map(list),
+            st.just(['pump']))
+        return {'enc': draw(pick([None, None, 'utf-8'])), 'n': n,
+                'win': draw(pick([64, 4096, 2097152])),
+                'pkt': draw(pick([64, 32768])),
+                'dir': draw(pick(['down', 'down', 'up'])),
+                'lockstep': draw(pick([True, True, False])),
+                'ops': draw(st.lists(op, min_size=1, max_size=10)),
+                'chunks': draw(st.one_of(
+                    st.just([]), st.just([]),
+                    st.lists(st.integers(1, 300), min_size=1, max_size=3)))}
+
+    return build()
+
+
 FAMILIES = [
     Family('channels', run_case, strategy=strategy,
            budget={'quick': 320, 'thorough': 6000},
            required={'all': ['write>window', 'write>pkt', 'multibyte-split',
                              'multi-chan', 'eof', 'pause', 'chunk-1byte']},
+           timeout_is_violation=True, case_timeout=120),
+    Family('streams', run_streams, strategy=streams_strategy,
+           budget={'quick': 600, 'thorough': 8000},
+           required={'all': ['record==n', 'lockstep', 'dir:down', 'dir:up']},
            timeout_is_violation=True, case_timeout=120),
 ]
